@@ -1,5 +1,6 @@
 from fontTools.config import OPTIONS
 from fontTools.misc.textTools import Tag, bytesjoin
+from fontTools.misc.lazyTools import LazyList
 from .DefaultTable import DefaultTable
 from enum import IntEnum
 import sys
@@ -903,6 +904,11 @@ class BaseTable(object):
             del self.font
             self.decompile(reader, font)
         if recurse:
+            # arrays read lazily (font opened with lazy=True) are not plain lists:
+            # read all their items now
+            for name, value in list(self.__dict__.items()):
+                if isinstance(value, LazyList):
+                    setattr(self, name, list(value))
             for subtable in self.iterSubTables():
                 subtable.value.ensureDecompiled(recurse)
 
